@@ -448,7 +448,13 @@ IMPORT_FORMS = ("module dm5\n  implicit none\n  type :: ta\n    integer :: i\n  
                 "  real function area2(a, b)\n    real, intent(in) :: a, b\n    area2 = a * b\n  end function area2\nend module dm6\n"
                 # USE and IMPLICIT sharing a line; a derived type of a BLOCK construct
                 "subroutine dm6_user()\n  use dm6; implicit none\n  type(vec) :: v\n  v = vec(1.0)\n  block\n    type :: local_t\n      integer :: a\n"
-                "    end type local_t\n    type(local_t) :: w\n    w%a = 1\n  end block\nend subroutine dm6_user\n")
+                "    end type local_t\n    type(local_t) :: w\n    w%a = 1\n  end block\nend subroutine dm6_user\n"
+                # alternate returns in the dummy argument list; an implicitly typed dummy argument in a length selector while a
+                # module declares a public variable of that name
+                "subroutine dm7_alt(a, *)\n  integer, intent(in) :: a\n  if (a > 0) return 1\nend subroutine dm7_alt\n"
+                "subroutine dm7_alt2(*, b, *)\n  implicit none\n  integer, intent(in) :: b\nend subroutine dm7_alt2\n"
+                "module dm7\n  integer :: mlen = 3\nend module dm7\n"
+                "subroutine dm7_len(mlen, str)\n  character(len=mlen) :: str\nend subroutine dm7_len\n")
 
 
 def check_valid(p: Prog):
